@@ -326,14 +326,23 @@ def Fs.occRemove (rw : Bool) (s : Fs) (i : Nat) (fd : Fd) : Resp × Fs :=
     let s1 := s.unlink i
     ((s1.occGet rw fd).1, { s1 with cur := none })
 
-/-- `Store::get` -/
+/-- CBOR `null` / `undefined` -/
+def isNull (h : UInt8) : Bool := h == 0xf6 || h == 0xf7
+
+/-- `Store::get`: `Ok(cbor::from_reader(fd)?)` is typed `Option<T>`, so the file is decoded as an
+`Option`: a leading CBOR `null`/`undefined` reads as `None`, anything else as `Some(T)`.
+(`insert` writes the bare `T`, which never starts with those bytes.) -/
 def Fs.storeGet (s : Fs) (i : Nat) : Resp :=
   match s.openat i with
   | none => .none
   | some fd =>
-    match (s.read fd).1 with
-    | .ok k => .key k
-    | .error _ => .err
+    match s.inodes[fd.ino]? with
+    | some (h :: _) =>
+      if isNull h then .none
+      else (match (s.read fd).1 with
+        | .ok k => .key k
+        | .error _ => .err)
+    | _ => .err
 
 def Fs.step (rw : Bool) (s : Fs) : Op → Resp × Fs
   | .entry i => match s.cur with
